@@ -14,6 +14,7 @@ import (
 	"math"
 	"os"
 	"reflect"
+	"strconv"
 	"strings"
 
 	"github.com/mattn/anko/ast"
@@ -31,6 +32,24 @@ func enc(e ast.Expr) N {
 		return enc(x.SubExpr)
 	case *ast.IdentExpr:
 		return N{"k": "leaf", "n": x.Lit}
+	case *ast.LiteralExpr:
+		// atoms of the other lexical classes; a negative number is the literal the grammar folds `- NUMBER` into
+		v := x.Literal
+		if !v.IsValid() || (v.Kind() == reflect.Interface && v.IsNil()) {
+			return N{"k": "leaf", "n": "nil"}
+		}
+		switch v.Kind() {
+		case reflect.Int64:
+			if v.Int() < 0 {
+				return N{"k": "un", "op": "-", "e": N{"k": "leaf", "n": strconv.FormatInt(-v.Int(), 10)}}
+			}
+			return N{"k": "leaf", "n": strconv.FormatInt(v.Int(), 10)}
+		case reflect.Bool:
+			return N{"k": "leaf", "n": strconv.FormatBool(v.Bool())}
+		case reflect.String:
+			return N{"k": "leaf", "n": strconv.Quote(v.String())}
+		}
+		return N{"k": "leaf", "n": fmt.Sprint(v.Interface())}
 	case *ast.OpExpr:
 		switch o := x.Op.(type) {
 		case *ast.BinaryOperator:
@@ -283,6 +302,37 @@ func canon(x interface{}) string {
 	return string(b)
 }
 
+func wordy(t string) bool {
+	c := t[0]
+	return c == '_' || c == '"' || (c >= '0' && c <= '9') || (c >= 'a' && c <= 'z') || (c >= 'A' && c <= 'Z')
+}
+
+func bracket(t string) bool { return strings.ContainsAny(t, "()[]") && len(t) == 1 }
+
+// joinTight writes a token sequence with as few blanks as keep the tokens apart: none between a word and an operator or bracket, one between
+// two words and between two operators (`< -`, `- -`, `& &` would run into other tokens).  lead: additionally one blank BEFORE every operator.
+func joinTight(ts []string, lead bool) string {
+	var b strings.Builder
+	for i, t := range ts {
+		if i > 0 {
+			p := ts[i-1]
+			op, pop := !wordy(t) && !bracket(t), !wordy(p) && !bracket(p)
+			switch {
+			case wordy(p) && wordy(t), op && pop:
+				b.WriteByte(' ')
+			case lead && op && p != "(" && p != "[":
+				b.WriteByte(' ')
+			case p == "]" && (t == "[" || t == "{"), t == "." || p == ".":
+				if t != "." && p != "." {
+					b.WriteByte(' ')
+				}
+			}
+		}
+		b.WriteString(t)
+	}
+	return b.String()
+}
+
 func trees(in, out string) {
 	var sum Summary
 	add := func(m Mismatch) {
@@ -312,6 +362,20 @@ func trees(in, out string) {
 			}
 			if canon(got) != want {
 				add(Mismatch{Kind: "tree", Min: min, Full: full, Exp: c.T, Got: got, What: "tree of the " + sp.name + " spelling"})
+				return nil
+			}
+		}
+		// blanks decide nothing: the same tokens written without blanks (where two tokens would not run into one), and with a blank
+		// only BEFORE every operator (`a -b`, `true -1`), build the same tree
+		for _, sp := range []struct{ name, src string }{{"min spelling without blanks", joinTight(c.Min, false)}, {"min spelling with blanks only before operators", joinTight(c.Min, true)}} {
+			got, err := parseExpr(sp.src)
+			sum.Parses++
+			if err != nil {
+				add(Mismatch{Kind: "tree", Min: sp.src, Full: full, Exp: c.T, Got: err.Error(), What: sp.name + " does not parse as one expression"})
+				return nil
+			}
+			if canon(got) != want {
+				add(Mismatch{Kind: "tree", Min: sp.src, Full: full, Exp: c.T, Got: got, What: "tree of the " + sp.name})
 				return nil
 			}
 		}
